@@ -15,6 +15,7 @@ def run(prog, chk):
     drain_before_next_read(prog, chk)
     blocking_reader_table(prog, chk)
     queue_order(prog, chk)
+    partial_request_rule(prog, chk)
     _run(prog, chk)
 
 
@@ -386,3 +387,51 @@ def queue_order(prog, chk):
     chk.ob("C14.fifo", "dispatch:append", len(app) == 1 and not other and (lvalue_key(app[0]["a"][0], fd) or "").endswith("->respQueue"),
            "extracted PDUs enter the response queue only through append (at the end): %s, other queue operations %s" % ([lvalue_key(a["a"][0], fd) for a in app], other),
            loc=fd.loc(), fn=fd)
+
+
+def partial_request_rule(prog, chk):
+    """A request leaves the send queue only if nothing or all of it has been written on the current connection, or the connection is
+    closed on the way: otherwise the next request's bytes would follow a fragment."""
+    chk.rule("C14.partial", "a partly written request is never dropped from the send queue while the connection stays open", floor=2)
+    fn = prog.fn("dispatch", "net_tcp_async.c")
+    removes = [(b, i, n) for b, i, n in fn.calls({"KSI_AsyncHandleList_remove"}) if (lvalue_key(n["a"][0], fn) or "").endswith("->reqQueue")]
+    closes = {b for b, i, n in fn.calls({"closeSocket"})}
+    if not removes:
+        raise AnalysisBroken("dispatch: removal from the send queue not found")
+
+    def safe_edge(e):
+        for (op, l, r) in edge_facts(fn, e):
+            tl, tr = text(fn, l), text(fn, r)
+            pair = {tl, tr}
+            if op == "==" and any(t.endswith("->sentCount") for t in pair) and (any(t.endswith("->len") for t in pair) or "0" in pair):
+                return True
+            if op in ("<=",) and tl.endswith("->sentCount") and tr == "0":
+                return True
+        return False
+    # the request under consideration is fetched at the head of the output loop: start there
+    heads = [b for b, i, n in fn.calls({"KSI_AsyncHandleList_elementAt"}) if (lvalue_key(n["a"][0], fn) or "").endswith("->reqQueue")]
+    if not heads:
+        raise AnalysisBroken("dispatch: head of the output loop not found")
+    for (rb, ri, rn) in removes:
+        seen, work, bad = set(), [(heads[0], [heads[0]])], None
+        while work and bad is None:
+            b, path = work.pop()
+            if b in seen:
+                continue
+            seen.add(b)
+            if b == rb and len(path) > 1:
+                bad = path
+                break
+            if b in closes:
+                continue
+            for e in fn.succ[b]:
+                if safe_edge(e):
+                    continue
+                if e.dst == heads[0]:
+                    continue        # next iteration = next request
+                work.append((e.dst, path + [e.dst]))
+        chk.ob("C14.partial", "dispatch:remove@%d" % fn.elem_line(rb, ri), bad is None,
+               "the request is removed from the send queue only after sentCount == len, sentCount == 0, or closeSocket()" if bad is None else
+               "a path from taking the head request to its removal from the send queue passes neither 'all sent', 'nothing sent' nor closeSocket(): a "
+               "fragment already written stays on the open connection and the next request follows it", loc=fn.loc(fn.elem_line(rb, ri)), fn=fn,
+               path=None if bad is None else path_lines(fn, bad))
